@@ -36,7 +36,10 @@ tvars == <<vars, t, l, lastT, ok>>
 IsRun(tt) == tt <= Len(Rec) /\ Rec[tt].ev = "run"
 (* a whole stepwise OVERLAPPING search recorded as one run: only the rules on the *)
 (* events apply (ACOverlap is bound through call histories, see TraceCalls)       *)
-IsOverlap(tt) == IsRun(tt) /\ "mode" \in DOMAIN Rec[tt] /\ Rec[tt].mode = "overlap"
+IsOverlap(tt) == IsRun(tt) /\ "mode" \in DOMAIN Rec[tt] /\ Rec[tt].mode \in {"overlap", "iter"}
+(* mode "iter": a whole non-overlapping iteration under STANDARD semantics (every search   *)
+(* stops at its match and the next one starts there): the offsets increase over the whole *)
+(* iteration                                                                               *)
 E == Rec[t]
 Ops == IF IsRun(t) THEN E.ops ELSE <<>>
 
